@@ -37,7 +37,7 @@ func (h *DefaultDeviceStrategy) GenerateUserCode(ctx context.Context) (string, s
 	userCode := string(seq)
 	signUserCode, signErr := h.UserCodeSignature(ctx, userCode)
 	if signErr != nil {
-		return "", "", err
+		return "", "", signErr
 	}
 	return userCode, signUserCode, nil
 }
